@@ -29,6 +29,15 @@ func OnceValues[T1, T2 any](f func() (T1, T2)) func() (T1, T2) { return rsync.On
 type Mutex struct {
 	mu   rsync.Mutex
 	held bool
+	hb   uint64
+}
+
+// release folds the releasing thread's history into the object.
+func releaseHB(hb *uint64) {
+	if s := active.Load(); s != nil && !s.dead {
+		th := s.self()
+		*hb = mix(th.h, 11)
+	}
 }
 
 func (m *Mutex) Lock() {
@@ -45,14 +54,22 @@ func (m *Mutex) TryLock() bool {
 	if s != nil {
 		s.park(th, op{kind: opYield, label: "trylock"})
 	}
-	if m.mu.TryLock() {
+	ok := m.mu.TryLock()
+	if ok {
 		m.held = true
-		return true
 	}
-	return false
+	if s != nil {
+		th.h = mix(mix(th.h, m.hb), 14)
+		if ok {
+			th.h = mix(th.h, 15)
+			m.hb = th.h
+		}
+	}
+	return ok
 }
 
 func (m *Mutex) Unlock() {
+	releaseHB(&m.hb)
 	m.held = false
 	m.mu.Unlock()
 }
@@ -62,6 +79,7 @@ type RWMutex struct {
 	mu rsync.RWMutex
 	w  bool
 	r  int32
+	hb uint64
 }
 
 func (m *RWMutex) Lock() {
@@ -86,6 +104,7 @@ func (m *RWMutex) TryLock() bool {
 }
 
 func (m *RWMutex) Unlock() {
+	releaseHB(&m.hb)
 	m.w = false
 	m.mu.Unlock()
 }
@@ -112,6 +131,7 @@ func (m *RWMutex) TryRLock() bool {
 }
 
 func (m *RWMutex) RUnlock() {
+	releaseHB(&m.hb)
 	atomic.AddInt32(&m.r, -1)
 	m.mu.RUnlock()
 }
@@ -131,7 +151,7 @@ type Once struct {
 }
 
 func (o *Once) Do(f func()) {
-	if o.done.Load() {
+	if o.done.Load() && !Active() {
 		return
 	}
 	o.m.Lock()
@@ -146,9 +166,15 @@ func (o *Once) Do(f func()) {
 type WaitGroup struct {
 	wg rsync.WaitGroup
 	n  int64
+	hb uint64
 }
 
 func (w *WaitGroup) Add(d int) {
+	if s := active.Load(); s != nil && !s.dead {
+		th := s.self()
+		th.h = mix(mix(th.h, w.hb), 12)
+		w.hb = th.h
+	}
 	atomic.AddInt64(&w.n, int64(d))
 	w.wg.Add(d)
 }
